@@ -3,6 +3,7 @@ package main
 import (
 	"context"
 	"fmt"
+	"golang.org/x/sys/unix"
 	"os"
 	"path/filepath"
 	"sort"
@@ -169,6 +170,31 @@ func c07Run(c *core.Ctx) *core.Result {
 		r.Inconclusive = "materialise: " + err.Error()
 		return r
 	}
+	// a hard link that the destination file system refuses: the first name
+	// lies on another file system (a mount point inside the destination).
+	// Whether the receive fails is not judged; a request for the link's id is
+	// (the receiver never requests links)
+	crossMount := false
+	if mr := core.NewRand(core.Mix(c.Seed, "C07-cross-mount-link", c.Index)); !unpriv && !fanout && src.Get("zm") == nil && src.Get("zz-link") == nil && mr.P(1, 30) {
+		md := filepath.Join(dest, "zm")
+		os.RemoveAll(md)
+		if os.Mkdir(md, 0755) == nil && unix.Mount("tmpfs", md, "tmpfs", 0, "size=1m") == nil {
+			defer unix.Unmount(md, unix.MNT_DETACH)
+			fe := tree.Entry{Path: "zm/a", Type: tree.File, Perm: 0644, Mtime: 1e18 + 11, Data: []byte("first name on another file system")}
+			src.Put(tree.Entry{Path: "zm", Type: tree.Dir, Perm: 0755, Mtime: 1e18 + 10})
+			src.Put(fe)
+			le := fe.Clone()
+			le.Path, le.LinkTo = "zz-link", "zm/a"
+			src.Put(le)
+			src.Sort()
+			// the first name is there already and equal: it is not rewritten
+			os.WriteFile(filepath.Join(md, "a"), fe.Data, 0644)
+			tree.ApplyMeta(filepath.Join(md, "a"), &fe)
+			os.Chmod(md, 0755)
+			crossMount = true
+			r.Count("sessions_with_a_link_across_file_systems", 1)
+		}
+	}
 	old, err := tree.Snapshot(dest, tree.SnapOpt{})
 	if err != nil {
 		r.Inconclusive = err.Error()
@@ -297,6 +323,13 @@ func c07Run(c *core.Ctx) *core.Result {
 		if res.RecvErr == nil && !rs.fin {
 			r.ViolateD("eof-as-success", det(), "%s: the stream ended before the receiver sent FIN but Receive returned nil", desc)
 		}
+		r.Nontrivial = true
+		return r
+	}
+	if crossMount && (res.SendErr != nil || res.RecvErr != nil) {
+		// link(2) across file systems cannot succeed: the failure is not the
+		// receiver's; what it requested before has been judged above
+		r.Count("cross_mount_link_sessions_failed_not_judged", 1)
 		r.Nontrivial = true
 		return r
 	}
